@@ -84,7 +84,7 @@ class Gen:
         if k < 0.97: return self.matrix([0.0]), 'D'
         return 'x', 'O'
 
-def run_sequence(cvxopt, rng, nops, lines, obs):
+def run_sequence(cvxopt, rng, nops, lines, obs, one_by_one=False):
     matrix = cvxopt.matrix
     g = Gen(rng, matrix)
     env = {}
@@ -100,9 +100,10 @@ def run_sequence(cvxopt, rng, nops, lines, obs):
         def f():
             env[name] = matrix(vals, (m, n), tc); return show_mat(env[name])
         emit('new %s %s %d %d %s' % (name, tc, m, n, ','.join(num_tok(v) for v in vals) or '-'), f)
-    for nm in names[:3]:
-        # one matrix in five is 1x1: the operators treat a 1x1 operand as a scalar on either side (and in place), a path of its own in the C code
-        if rng.random() < 0.2: new(nm, None, 1, 1)
+    for k_, nm in enumerate(names[:3]):
+        # sequences with 1x1 matrices: the operators treat a 1x1 operand as a scalar on either side (and in place), a path of its own in the C code
+        if one_by_one and k_ != 1: new(nm, None, 1, 1)
+        elif one_by_one: new(nm, 'i')
         else: new(nm)
     def opd(allow_num=True):
         if allow_num and rng.random() < 0.4:
@@ -246,6 +247,34 @@ def run_sequence(cvxopt, rng, nops, lines, obs):
                 r = matrix([list(c) for c in cols], tc=tc) if tc else matrix([list(c) for c in cols])
                 env[dst] = r; return show_mat(r)
             emit('newcols %s %s %s' % (dst, tc or '_', '|'.join(','.join(typed(v) for v in c) or '-' for c in cols) or '_'), f)
+    if one_by_one:
+        # directed: an integer matrix whose entries are valid positions of itself, assigned through itself (one- and two-argument forms)
+        L = rng.randint(2, 5)
+        vals = [rng.randint(-L, L - 1) for _ in range(L)]
+        def f0(): env['f'] = matrix(vals, (L, 1), 'i'); return show_mat(env['f'])
+        emit('new f i %d 1 %s' % (L, ','.join(num_tok(v) for v in vals)), f0)
+        v = rng.randint(-L, L - 1)
+        if rng.random() < 0.5:
+            def f():
+                env['f'][env['f']] = v; return show_mat(env['f'])
+            emit('set1 f If n0;%d' % v, f)
+        else:
+            def f():
+                env['f'][env['f'], 0] = v; return show_mat(env['f'])
+            emit('set2 f If i0 n0;%d' % v, f)
+    if one_by_one:
+        # directed: every in-place operator on the 1x1 matrix `a`, with a number and with another 1x1 matrix on the right
+        for op in ('add', 'sub', 'mul'):
+            y, ty = opd() if rng.random() < 0.5 else (env['c'], 'Mc')
+            def f(op=op, y=y):
+                B = env['a']
+                if op == 'add': B += y
+                elif op == 'sub': B -= y
+                else: B *= y
+                if B is not env['a']:
+                    env['a'] = B; return 'new ' + show_mat(B)
+                return show_mat(B)
+            emit('ibin %s a %s' % (op, ty), f)
     for _ in range(nops):
         k = rng.random()
         if rng.random() < 0.3:
@@ -255,6 +284,32 @@ def run_sequence(cvxopt, rng, nops, lines, obs):
             continue
         nm = rng.choice(list(env))
         A = env[nm]
+        if one_by_one and k < 0.6 and rng.random() < 0.3:
+            # (extra sequences only) a matrix object of the environment as the index: an 'i' matrix is an index list - also when it is the very matrix that is
+            # read or assigned to (the index list is read before anything is written) -, any other matrix is refused
+            nmi = nm if rng.random() < 0.5 else rng.choice(list(env))
+            Ii = env[nmi]
+            v, tv = opd()
+            w_ = rng.random()
+            if w_ < 0.2: emit('get1 %s I%s' % (nm, nmi), lambda: show_res(A[Ii], matrix))
+            elif w_ < 0.6:
+                def f():
+                    A[Ii] = v; return show_mat(A)
+                emit('set1 %s I%s %s' % (nm, nmi, tv), f)
+            else:
+                J, tj = g.idx(A.size[1])
+                if rng.random() < 0.5:
+                    def f():
+                        A[Ii, J] = v; return show_mat(A)
+                    emit('set2 %s I%s %s %s' % (nm, nmi, tj, tv), f)
+                else:
+                    I2, ti2 = g.idx(A.size[0])
+                    def f():
+                        A[I2, Ii] = v; return show_mat(A)
+                    emit('set2 %s %s I%s %s' % (nm, ti2, nmi, tv), f)
+            for q in list(env):
+                lines.append('dump ' + q); obs.append(show_mat(env[q]))
+            continue
         if k < 0.18:
             I, t = g.idx(len(A))
             emit('get1 %s %s' % (nm, t), lambda: show_res(A[I], matrix))
@@ -348,6 +403,10 @@ def correspond(ctx):
     for s in range(nseq):
         starts.append(len(lines))
         run_sequence(cvxopt, rng, 14, lines, obs)
+    rng1 = random.Random(ctx.seed * 40503 + 151)
+    for s in range(nseq // 5):          # extra sequences (own stream) that start from two 1x1 matrices and a general one
+        starts.append(len(lines))
+        run_sequence(cvxopt, rng1, 14, lines, obs, one_by_one=True)
     # slices against Python's own semantics (exhaustive small box)
     sl_lines, sl_obs = [], []
     for n in range(0, 5):
